@@ -135,6 +135,9 @@ def modelLine (s : State) (line : String) : State × String :=
     match NftGenesis.importGenesis (NftGenesis.exportGenesis s) with
     | .ok s' => (s', "ok " ++ showState s')
     | .error _ => (s, "panic " ++ showState s)
+  | "nft" :: "ghost" :: _ =>
+    -- an execution on a context that is thrown away: the state is what it was
+    (s, "ghost " ++ showState s)
   | ["nft", "vjson", d] =>
     -- pure conformance case: ValidateBasic of an otherwise well-formed mint carrying this data
     match hexArg [d] "data" with
@@ -186,6 +189,13 @@ def runMonitor (prop : String) (ops obs : Array String) : IO Unit := do
           out.putStrLn s!"mon {prop} FAIL clause={c} line={i+1}"; fails := fails + 1
         pre := post
       | none => out.putStrLn s!"mon {prop} FAIL clause=obs-parse line={i+1}"; fails := fails + 1
+    | "nft" :: "ghost" :: _ =>
+      match parseObs o with
+      | some post =>
+        for c in pureFails pre post do
+          out.putStrLn s!"mon {prop} FAIL clause=ghost-{c} line={i+1}"; fails := fails + 1
+        pre := post
+      | none => out.putStrLn s!"mon {prop} FAIL clause=obs-parse line={i+1}"; fails := fails + 1
     | ["nft", "vjson", _] =>
       -- a pure ValidateBasic case: no message is delivered, the state must not move
       match parseObs o with
@@ -213,6 +223,7 @@ def runExplain (ops : Array String) : IO Unit := do
     match t with
     | ["nft", "reset"] => s := {}
     | ["nft", "vjson", _] => pure ()
+    | "nft" :: "ghost" :: _ => pure ()
     | ["nft", "export"] => pure ()
     | ["nft", "reimport"] =>
       match NftGenesis.importGenesis (NftGenesis.exportGenesis s) with
